@@ -22,6 +22,8 @@ type Case struct {
 	ID     string `json:"id"`
 	Root   string `json:"root"`
 	Stream string `json:"stream"`
+	File   string `json:"file"` // alternative to stream: path of a file holding the raw bytes (large inputs)
+	TimeoutS int  `json:"timeout_s"` // watchdog for this case (default 20 s)
 }
 
 type Out struct {
@@ -126,6 +128,12 @@ func main() {
 			panic(err)
 		}
 		data, _ := hex.DecodeString(c.Stream)
+		if c.File != "" {
+			var err error
+			if data, err = os.ReadFile(c.File); err != nil {
+				panic(err)
+			}
+		}
 		out := &Out{ID: c.ID}
 		var m0, m1 runtime.MemStats
 		runtime.GC()
@@ -141,7 +149,7 @@ func main() {
 		}()
 		select {
 		case <-done:
-		case <-time.After(20 * time.Second):
+		case <-time.After(time.Duration(max(c.TimeoutS, 20)) * time.Second):
 			out.Hang = true
 		}
 		runtime.ReadMemStats(&m1)
@@ -150,8 +158,8 @@ func main() {
 		j, _ := json.Marshal(out)
 		w.Write(j)
 		w.WriteString("\n")
+		w.Flush() // a fatal error in a later case must not lose the results already produced
 		if out.Hang {
-			w.Flush()
 			os.Exit(3)
 		}
 	}
